@@ -81,6 +81,12 @@ M = [
  ("c13_late_reply_blocks", "C13", "actor.go", "\tcase askSelf.ch <- response:\n\tcase <-askSelf.timeoutCh:\n", "\tcase askSelf.ch <- response:\n"),
  ("c13_close_on_timeout_again", "C13", "actor.go", "\t\tverifAt(\"ask.timeout.fired\")\n", "\t\tverifAt(\"ask.timeout.fired\")\n\t\tdefer close(ch)\n"),
  ("c13_shared_reply_channel", "C13", "actor.go", "\treturn AskNewByOptionsGenerics[T, R](message, make(chan R))", "\tch, _ := askSharedCh.LoadOrStore(fmt.Sprintf(\"%T\", *new(R)), make(chan R, 64))\n\treturn AskNewByOptionsGenerics[T, R](message, ch.(chan R))"),
+ ("c09_no_wake_after_panic", "C09", "worker/pool.go", "\t\t\tif (isPanicked || isBelowStandBy) && !workerPoolSelf.IsClosed() {", "\t\t\tif isBelowStandBy && isPanicked && !workerPoolSelf.IsClosed() && workerPoolSelf.workerSizeMaximum > 1 {"),
+ ("c09_max_not_enforced", "C09", "worker/pool.go", "\tif workerPoolSelf.workerCount >= maximum ||\n\t\tworkerPoolSelf.workerCount >= workerPoolSelf.workerSizeMaximum {\n\t\treturn\n\t}", "\tif workerPoolSelf.workerCount >= maximum+1 {\n\t\treturn\n\t}"),
+ ("c09_job_runs_twice_after_jam", "C09", "worker/pool.go", "\t\t\t\t\tjob()\n\n\t\t\t\t\tworkerPoolSelf.lock.Lock()\n\t\t\t\t\tworkerPoolSelf.workerBusy--", "\t\t\t\t\tjob()\n\t\t\t\t\tif workerPoolSelf.workerBusy > 2 {\n\t\t\t\t\t\tjob()\n\t\t\t\t\t}\n\n\t\t\t\t\tworkerPoolSelf.lock.Lock()\n\t\t\t\t\tworkerPoolSelf.workerBusy--"),
+ ("c09_schedule_nil_on_full", "C09", "worker/pool.go", "\tif err == fpgo.ErrQueueIsFull {\n\t\treturn ErrWorkerPoolJobQueueIsFull\n\t}\n\n\treturn err", "\tif err == fpgo.ErrQueueIsFull {\n\t\treturn nil\n\t}\n\n\treturn err"),
+ ("c09_panic_handler_twice", "C09", "worker/pool.go", "\t\t\t\t\thandler(panic)\n", "\t\t\t\t\thandler(panic)\n\t\t\t\t\tif isBusy && workerPoolSelf.workerCount > 1 {\n\t\t\t\t\t\thandler(panic)\n\t\t\t\t\t}\n"),
+ ("c09_closed_pool_accepts", "C09", "worker/pool.go", "func (workerPoolSelf *DefaultWorkerPool) Schedule(fn func()) error {\n\tif workerPoolSelf.IsClosed() {\n\t\treturn ErrWorkerPoolIsClosed\n\t}", "func (workerPoolSelf *DefaultWorkerPool) Schedule(fn func()) error {\n\tif workerPoolSelf.IsClosed() && workerPoolSelf.isJobQueueClosedWhenClose {\n\t\treturn ErrWorkerPoolIsClosed\n\t}"),
 ]
 
 EXTRA = {
